@@ -634,8 +634,11 @@ func c20CheckDescCase(c c20DescCase) engine.Result {
 			}
 			// the same descriptor obtained by decoding a PMT (sub-sampled for foreign tags)
 			if own || i%97 == 0 {
+				// (behind a descriptor that rotates through a stream identifier, the EMPTY descriptors of tag 0,
+				// tag 0xFF and tag 0x05, and a one-byte descriptor of tag 0: none of them ends the loop)
+				lead := []ref.Desc{{Tag: 0x52, Body: []byte{1}}, {Tag: 0x00}, {Tag: 0xFF}, {Tag: 0x00, Body: []byte{0}}, {Tag: 0x05}}[i%5]
 				sec := ref.PMTSection{Program: 1, Version: 2, CurrentNext: true, PCRPID: 0x101,
-					Streams: []ref.Stream{{Type: 0x1B, PID: 0x101, Descs: []ref.Desc{{Tag: 0x52, Body: []byte{1}}, {Tag: byte(T), Body: b.body}}}, {Type: 0x0F, PID: 0x102}}}
+					Streams: []ref.Stream{{Type: 0x1B, PID: 0x101, Descs: []ref.Desc{lead, {Tag: byte(T), Body: b.body}}}, {Type: 0x0F, PID: 0x102}}}
 				pmt, err := psi.NewPMT(append(ref.Pointer(0), sec.Bytes()...))
 				if err != nil || len(pmt.ElementaryStreams()) != 2 || len(pmt.ElementaryStreams()[0].Descriptors()) != 2 {
 					res.Failf("NewPMT|descriptor-list", "tag %#x body % x: err=%v", T, b.body, err)
